@@ -353,6 +353,7 @@ type Symbol struct {
 	DataWords int
 	Words     []int  // data + check words
 	WordMods  [][]XY // module positions of each word's bits (MSB first)
+	ModeMods  [][]XY // module positions of each 4-bit mode-message word's bits (MSB first)
 	Size      int
 	M         [][]bool // [y][x]
 }
@@ -479,6 +480,39 @@ func BuildMin(data []int, layers int, compact bool, minCheck int) *Symbol {
 	}
 	c := size / 2
 	dark := func(x, y int) { s.M[y][x] = true }
+	// where message bit b sits (the same walk as the drawing below)
+	modePos := func(b int) XY {
+		if compact {
+			switch {
+			case b < 7:
+				return XY{c - 3 + b, c - 5}
+			case b < 14:
+				return XY{c + 5, c - 3 + (b - 7)}
+			case b < 21:
+				return XY{c - 3 + (20 - b), c + 5}
+			default:
+				return XY{c - 5, c - 3 + (27 - b)}
+			}
+		}
+		o := func(i int) int { return c - 5 + i + i/5 }
+		switch {
+		case b < 10:
+			return XY{o(b), c - 7}
+		case b < 20:
+			return XY{c + 7, o(b - 10)}
+		case b < 30:
+			return XY{o(29 - b), c + 7}
+		default:
+			return XY{c - 7, o(39 - b)}
+		}
+	}
+	for w := range mwords {
+		var ps []XY
+		for b := 0; b < 4; b++ {
+			ps = append(ps, modePos(4*w+b))
+		}
+		s.ModeMods = append(s.ModeMods, ps)
+	}
 	if compact {
 		for i := 0; i < 7; i++ {
 			o := c - 3 + i
